@@ -215,6 +215,8 @@ func Execute(env *Env, cfg *Config, path []string) (res *Result) {
 		"PATH=" + os.Getenv("PATH"), "HOME=" + home, "XDG_CONFIG_HOME=" + filepath.Join(home, ".config"),
 		"GIT_CONFIG_NOSYSTEM=1", "LANG=C", "LC_ALL=C", "TERM=dumb", "EDITOR=false", "GIT_EDITOR=false",
 		"VISUAL=false", "GOMAXPROCS=2", "NO_COLOR=1",
+		// the keyring library linked into git-bug would otherwise autolaunch (and leak) a dbus-daemon
+		"DBUS_SESSION_BUS_ADDRESS=unix:path=/nonexistent",
 	}
 	for i := 1; i <= cfg.Holders; i++ {
 		x.spawn(strconv.Itoa(i))
